@@ -306,6 +306,23 @@ type compArgs struct {
 func (h *H) compArgs(toks []string) (*compArgs, bool) {
 	a := &compArgs{vals: map[int]int64{}}
 	for _, tok := range toks {
+		if strings.HasPrefix(tok, "r") {
+			// `rN>target`: an additional relation target without a component (duplicate/foreign relation IDs)
+			ct, ok := parseCompTok("c" + tok[1:])
+			if !ok || ct.target == "" {
+				return nil, false
+			}
+			rc, ok := h.comps[ct.name]
+			if !ok {
+				return nil, false
+			}
+			t, ok := h.entOf(ct.target)
+			if !ok {
+				return nil, false
+			}
+			a.rels = append(a.rels, relArg{rc, t})
+			continue
+		}
 		if !(strings.HasPrefix(tok, "c") || strings.HasPrefix(tok, "+c") || strings.HasPrefix(tok, "-c")) {
 			continue
 		}
